@@ -3,8 +3,9 @@
    target directory; not part of the proof build. *)
 From Coq Require Extraction.
 From Coq Require Import ExtrOcamlBasic.
-From CP Require Import Bytes Runtime.
+From CP Require Import Bytes Runtime TimePb.
 Extraction Language OCaml.
 Extraction "model.ml"
   Bytes.enc_varint Bytes.dec_varint Bytes.n2b Bytes.b2n
-  Runtime.Sov Runtime.Soz Runtime.protowire_size Runtime.EncodeVarint Runtime.Skip.
+  Runtime.Sov Runtime.Soz Runtime.protowire_size Runtime.EncodeVarint Runtime.Skip
+  TimePb.TsAdd TimePb.TsAddStd TimePb.TsCompare.
